@@ -110,7 +110,8 @@ func unitsFor(P *Program, C *Contracts, prop string) (units []*Unit, trusted []s
 func verifyStructural(P *Program, C *Contracts, st *Structural) *Unit {
 	u := newUnit(P, C, "structural:"+st.Kind+":"+st.Target)
 	switch st.Kind {
-	case "nocallers", "callersonly":
+	case "nocallers", "callersonly", "pkgcallersonly":
+		// pkgcallersonly: the restriction applies to the functions of the contract file's own package only
 		key := st.Target
 		if _, ok := P.Funcs[key]; !ok {
 			key = st.Pkg + "." + st.Target
@@ -125,18 +126,32 @@ func verifyStructural(P *Program, C *Contracts, st *Structural) *Unit {
 			if !strings.HasPrefix(k, modPath) {
 				continue
 			}
+			if st.Kind == "pkgcallersonly" {
+				pp := ""
+				if fn.Pkg != nil {
+					pp = fn.Pkg.Pkg.Path()
+				} else if fn.Origin() != nil && fn.Origin().Pkg != nil {
+					pp = fn.Origin().Pkg.Pkg.Path()
+				}
+				if pp != st.Pkg {
+					continue
+				}
+			}
 			for _, b := range fn.Blocks {
 				for _, ins := range b.Instrs {
 					if ci, ok := ins.(ssa.CallInstruction); ok && ci.Common().StaticCallee() == target {
 						okCaller := false
 						for _, a := range st.Allowed {
-							if shortKey(k) == a || strings.HasSuffix(k, "."+a) {
+							if shortKey(k) == a || strings.HasSuffix(k, "."+a) || strings.HasSuffix(stripBrackets(k), "."+a) {
 								okCaller = true
 							}
 						}
 						if !okCaller {
 							callers = append(callers, shortKey(k))
 						}
+					}
+					if _, isDbg := ins.(*ssa.DebugRef); isDbg {
+						continue // source-position bookkeeping, not a use
 					}
 					for _, op := range ins.Operands(nil) {
 						if op != nil && *op == ssa.Value(target) {
@@ -152,6 +167,9 @@ func verifyStructural(P *Program, C *Contracts, st *Structural) *Unit {
 		desc := "no non-test code calls " + st.Target + ": " + st.Why
 		if st.Kind == "callersonly" {
 			desc = "only " + strings.Join(st.Allowed, ", ") + " call " + st.Target + ": " + st.Why
+		}
+		if st.Kind == "pkgcallersonly" {
+			desc = "in package " + st.Pkg + " only [" + strings.Join(st.Allowed, ", ") + "] call " + st.Target + ": " + st.Why
 		}
 		if len(callers) > 0 {
 			goal = "false"
@@ -480,7 +498,26 @@ func report(run *propertyRun, C *Contracts) int {
 	for _, b := range run.Bounded {
 		bounded = append(bounded, map[string]any{"name": b.Name, "what": b.Desc, "ok": b.OK, "cases": b.Cases, "label": "bounded — not counted in obligations/discharged"})
 	}
+	// the slowest obligations (margin against the per-obligation timeout is visible in every evidence file)
+	var all []*Obligation
+	for _, u := range run.Units {
+		all = append(all, u.obls...)
+	}
+	sort.SliceStable(all, func(i, j int) bool { return all[i].TimeS > all[j].TimeS })
+	var slowest []any
+	for i, o := range all {
+		if i >= 8 || o.TimeS < 1 {
+			break
+		}
+		slowest = append(slowest, map[string]any{"obligation": o.Name, "solver": o.Solver, "time_s": round3(o.TimeS), "result": o.Result})
+	}
+	if os.Getenv("VERIF_TIMES") != "" {
+		for _, x := range slowest {
+			fmt.Fprintf(os.Stderr, "slow: %v\n", x)
+		}
+	}
 	cov := map[string]any{
+		"slowest_obligations": slowest,
 		"obligations": total, "discharged": discharged,
 		"checker_cmd": fmt.Sprintf("/verif/bin/govc check --property %s --tier %s  (VCs from go/ssa of /repo's working tree; portfolio z3 4.8.12 | z3 5.1.0 | cvc5 1.0)", run.ID, run.Tier),
 		"trusted_base": []string{
